@@ -124,7 +124,12 @@ def PObj.neg : PObj → PObj
 /-- `a + b` where `a` is Pauli / monomial / polynomial (`self.as_polynomial() + other`) -/
 def PObj.add (a b : PObj) : Except Err PObj :=
   match a with
-  | .plist _ => .error .type
+  | .plist ps => match b with     -- no `PauliList.__add__`: Python falls back to `b.__radd__(a)` = `b + a`
+    | .plist _ => .error .type
+    | .num _ => .error .type
+    | _ => match b.asPoly with
+      | some pb => .ok (.poly (polyAdd pb (ps.map fun x => (x, Cx.one))))
+      | none => .error .type
   | .num c => match b with
     | .num d => .ok (.num (c.add d))
     | .plist _ => .error .type
@@ -142,7 +147,13 @@ def PObj.add (a b : PObj) : Except Err PObj :=
         | none => .error .type
 
 /-- `a - b` = `a + (-b)` -/
-def PObj.sub (a b : PObj) : Except Err PObj := a.add b.neg
+def PObj.sub (a b : PObj) : Except Err PObj :=
+  match a with
+  | .plist _ => .error .type      -- no `__sub__` on PauliList and no `__rsub__` anywhere
+  | .num c => match b with
+    | .num d => .ok (.num (c.add d.neg))
+    | _ => .error .type
+  | _ => a.add b.neg
 
 /-- `a / c` = `(1/c) * a` -/
 def PObj.div (a : PObj) (c : Cx) : Except Err PObj := a.rmul c.inv
